@@ -88,6 +88,8 @@ class C09(Prop):
         if case["l1"] is not None:
             kw.update(L1=(np.array([case["l1"]] + [e["l1"] for e in extra]) if extra else case["l1"]), l1_eps=case["l1_eps"])
         Eps = None if case["Eps"] is None else np.array(case["Eps"])
+        # warm-up with another tolerance on the same object: must leave no trace (also exercises "asked twice")
+        gs.warm(lambda: est.minimize_variance(Bin, Epsilon=Eps, l2_eps=(1e-2 if case["l2_eps"] < 1e-3 else 1e-5), **kw))
         X, Bp, Bv = est.minimize_variance(Bin, Epsilon=Eps, l2_eps=case["l2_eps"], **kw)
         Xo, Bo = est.fit(np.asarray(case["b"])[None], **HI)
         return {"X": np.asarray(X, dtype=float)[0].tolist(), "Bpred": np.asarray(Bp, dtype=float)[0].tolist(), "Bvar": np.asarray(Bv, dtype=float)[0].tolist(),
